@@ -31,6 +31,7 @@ DECIDED = [
     "R-C07-MAP / R-C07-WIRE (round 6 + sweep): the Redis bucket broker reads the server on every get (no cache); RabbitMQ: the key handed out is (message id, header topic, header queue, AMQP priority or MEDIUM)",
     "R-C07-AWAITED: in the files this property is anchored in, no bare statement calls a coroutine function (the operation would never run)",
     "R-C07-ALPHABET / R-C07-WIRE (Redis sweep rules): key templates of qnc / mnc; the Redis broker stores the parameters it was given",
+    "R-C07-MAP (sweep stage two): priorities from 0 and durations of exactly one second are valid; an explicit args_id / result_id is the id used",
 ]
 NOT_DECIDED = ["value-level identity decode(encode(x)) == x (float round trip of durations at microsecond precision, timezones)"]
 ASSUMPTIONS = ["json round-trips str/int/bool/None; datetime.isoformat/fromisoformat and total_seconds/timedelta(seconds=float) are mutually inverse at the stated precision"]
@@ -43,6 +44,9 @@ def run(ctx: Ctx) -> None:
     from .shared import every_operation_awaited
 
     every_operation_awaited(ctx, "R-C07-AWAITED")  # in the files this property is anchored in, no asynchronous operation is created and dropped
+    from .shared import job_validation_boundaries
+
+    job_validation_boundaries(ctx, "R-C07-MAP")  # every valid job configuration is accepted; explicit ids are the ids used
     from .brokers import redis_name_constructors
 
     redis_name_constructors(ctx, "R-C07-ALPHABET")  # key encodings: queue / priority / topic / id joined by ':' in the documented order
